@@ -61,10 +61,13 @@ def handle (op : String) (j : Json) : Option (Except String Json) :=
   | "tideman" => some do
     let p ← getProfile j "profile"
     let smith := (j.getObjValAs? Bool "smith").toOption.getD true
-    pure (exceptJson slotsJson (tideman smith p))
+    match (j.getObjValAs? Nat "n").toOption with
+    | none => pure (exceptJson slotsJson (tideman smith p))
+    | some n => pure (exceptJson slotsJson (tidemanN smith p n))
   | "to_condorcet" => some do
     let p ← getProfile j "profile"
-    pure (Json.arr ((rankedToCondorcet p).map (fun e => Json.arr #[toJson e.1.1, toJson e.1.2, ratJson e.2])).toArray)
+    let uab := (j.getObjValAs? Bool "uab").toOption.getD true
+    pure (Json.arr ((if uab then rankedToCondorcet p else rankedToCondorcetNoBottom p).map (fun e => Json.arr #[toJson e.1.1, toJson e.1.2, ratJson e.2])).toArray)
   | _ => none
 
 end VL.Drv.C05
